@@ -82,3 +82,9 @@ TEXT["C09"] = dict(
     note="Trusts the 200-line model in harness/c09/model.go and the add-only hook cache/verif_hooks.go (reads under the cache's own mutex). Both accountings of a to-be-replaced entry are accepted.",
     technique="runtime shadow-model monitor + structural invariant hook after every call, bounded-exhaustive and random histories, checkptr/ASan",
 )
+
+TEXT["C10"] = dict(
+    level="Race detection plus linearizability checking of recorded histories: 15 000 (quick) / 300 000 (thorough) short concurrent histories on 9 cache configurations run under the Go race detector; each per-key history, with evictions observed through OnDelete as operations, is checked by porcupine against a sequential register model; every Get value is checksummed, every Stats snapshot is checked against the bounds and the hook's invariants are checked at quiescence; long unrecorded stress runs add race coverage. The evidence reports how many histories had overlapping operations on a key and how often each pair of operation kinds overlapped. Exploration: schedules are sampled, not enumerated.",
+    note="Trusts porcupine v1.3.0, the Go race detector's happens-before analysis for the accesses a run performs, and the 40-line model. A porcupine timeout (20 s) is inconclusive, never a verdict.",
+    technique="Go race detector + offline linearizability checking (porcupine) of stamped client-boundary histories, with eviction events from a callback recorder",
+)
